@@ -45,3 +45,53 @@ Theorem C12_monitor_is_model_audience : forall hs ns,
   default_aud_spec_b hs ns = default_audience hs ns.
 Proof. exact default_aud_spec_b_is_model. Qed.
 Print Assumptions C12_monitor_is_model_audience.
+
+(* ------------------------------------------------------------------ confinement of every flow (history model) *)
+From FositeModel Require Import Model.Core Model.Flows Proofs.StepProps Proofs.C12Flows.
+
+(* whatever strategy is configured: an endpoint that takes a requested scope/audience (authorization with any
+   response type, password, client credentials, pushed authorization, device authorization) accepts the request
+   only if the registration of the client it is made for covers every requested scope and audience *)
+Theorem C12_no_flow_accepts_uncovered_request : forall cfg s o c sc au,
+  request_of o = Some (c, sc, au) -> o_err (snd (step cfg s o)) = "" ->
+  exists cl, clients s c = Some cl /\ scopes_ok cfg cl sc = true /\ aud_ok cfg (cl_aud cl) au = true.
+Proof. exact accepted_request_is_covered. Qed.
+Print Assumptions C12_no_flow_accepts_uncovered_request.
+
+Theorem C12_request_uri_authorization_covered : forall cfg s cp uri a,
+  o_err (snd (authorize_par cfg s cp uri a)) = "" ->
+  exists k pr, key_of s uri = Some k /\ par (st s) k = Some pr /\
+    scopes_ok cfg (r_cl pr) (r_rscopes pr) = true /\ aud_ok cfg (cl_aud (r_cl pr)) (r_raud pr) = true.
+Proof. exact par_authorization_is_covered. Qed.
+Print Assumptions C12_request_uri_authorization_covered.
+
+Theorem C12_refresh_covered_by_current_registration : forall cfg s auth tok,
+  o_err (snd (refresh_flow cfg s auth tok)) = "" ->
+  exists k r cl, key_of s tok = Some k /\ refresh (st s) k = Some (true, r) /\ clients s (r_client r) = Some cl /\
+    scopes_ok cfg cl (r_gscopes r) = true /\ aud_ok cfg (cl_aud cl) (r_gaud r) = true.
+Proof. exact refresh_is_covered. Qed.
+Print Assumptions C12_refresh_covered_by_current_registration.
+
+(* tokens carry the grant and nothing else: grants that start at the token endpoint ... *)
+Theorem C12_password_tokens_carry_the_grant : forall cfg s auth ok sc au g ga,
+  o_err (snd (password_flow cfg s auth ok sc au g ga)) = "" ->
+  o_scopes (snd (password_flow cfg s auth ok sc au g ga)) = g /\
+  exists ka r, access (st (fst (password_flow cfg s auth ok sc au g ga))) ka = Some r /\ r_gscopes r = g /\ r_gaud r = ga.
+Proof. exact password_mints_the_grant. Qed.
+Print Assumptions C12_password_tokens_carry_the_grant.
+
+Theorem C12_client_credentials_tokens_carry_the_grant : forall cfg s auth sc au g ga,
+  o_err (snd (client_credentials_flow cfg s auth sc au g ga)) = "" ->
+  o_scopes (snd (client_credentials_flow cfg s auth sc au g ga)) = g /\
+  exists ka r, access (st (fst (client_credentials_flow cfg s auth sc au g ga))) ka = Some r /\ r_gscopes r = g /\ r_gaud r = ga.
+Proof. exact client_credentials_mints_the_grant. Qed.
+Print Assumptions C12_client_credentials_tokens_carry_the_grant.
+
+(* ... a refresh re-issues exactly the stored grant (Props/C05.v), a redemption exactly the code's grant (Props/C02.v),
+   a poll exactly the decision (Props/C16.v); and introspection reports the record's own scopes and audience: *)
+Theorem C12_reported_scopes_are_the_records : forall cfg s key tampered scopes p,
+  introspect_access cfg s key tampered scopes = Some p ->
+  exists k r, key = Some k /\ lookup_access (st s) (Some k) = Some r /\
+    pl_scopes p = r_gscopes r /\ pl_aud p = map a_raw (r_gaud r).
+Proof. exact reported_scopes_are_the_records. Qed.
+Print Assumptions C12_reported_scopes_are_the_records.
